@@ -25,7 +25,11 @@ def solveLS (XT : Mat) (w y : Vec) : Option Sol := do
   let kappa := normInf A * normInf inv
   if kappa > kappaMax then none else
   let n := y.length; let p := XT.length
-  let s := ratMax (vecInf beta) (normInf inv * vecInf b * (1 / 1000000))
+  -- scale of the forward error: the coefficients themselves, and the right-hand side Σ w φ y taken with absolute
+  -- values (when y is nearly orthogonal to a basis function that sum cancels: its rounding error, eps·Σ|w φ y|,
+  -- is carried into β by A⁻¹ - the residual term κ²·‖r‖ of the least-squares perturbation bound)
+  let babs : Vec := XT.map fun ri => dot (ri.zip w |>.map fun (a, b) => ratAbs (a * b)) (y.map ratAbs)
+  let s := ratMax (vecInf beta) (normInf inv * vecInf babs)
   pure ⟨beta, 256 * ((n + p + 2 : Nat) : Rat) * kappa * eps * s + 1 / pow2 900, kappa, A, b⟩
 
 def parseW (j : J) (n : Nat) : Option Vec :=
